@@ -77,6 +77,58 @@ def build_harness(ctx=None):
 
 
 # ---------------------------------------------------------------------------
+# result cache (several properties share one module run: same binary, same
+# behaviours, same options => same result; TLC runs are deterministic in the
+# spec files).  Keys contain content hashes, so any edit invalidates them.
+
+CACHE = os.path.join(WORK, "cache")
+
+
+def _sha_file(path, h=None):
+    h = h or hashlib.sha256()
+    with open(path, "rb") as f:
+        while True:
+            b = f.read(1 << 20)
+            if not b:
+                break
+            h.update(b)
+    return h
+
+
+def spec_hash():
+    h = hashlib.sha256()
+    for fn in sorted(os.listdir(SPEC)):
+        if fn.endswith(".tla") or fn.endswith(".cfg"):
+            h.update(fn.encode())
+            _sha_file(os.path.join(SPEC, fn), h)
+    return h.hexdigest()
+
+
+def cache_get(key, dest):
+    if os.environ.get("VERIF_NO_CACHE"):
+        return False
+    src = os.path.join(CACHE, key)
+    if os.path.exists(src):
+        shutil.copyfile(src, dest)
+        return True
+    return False
+
+
+def cache_put(key, src):
+    os.makedirs(CACHE, exist_ok=True)
+    # keep the cache small
+    try:
+        entries = sorted((os.path.getmtime(os.path.join(CACHE, f)), f) for f in os.listdir(CACHE))
+        while len(entries) > 40:
+            os.remove(os.path.join(CACHE, entries.pop(0)[1]))
+    except OSError:
+        pass
+    tmp = os.path.join(CACHE, key + ".tmp%d" % os.getpid())
+    shutil.copyfile(src, tmp)
+    os.replace(tmp, os.path.join(CACHE, key))
+
+
+# ---------------------------------------------------------------------------
 # TLC
 
 TLC_JAR = "/opt/veriftools/tla/tla2tools.jar"
@@ -96,7 +148,7 @@ def _tlc_cmd(workers, metadir, cfg, tla, extra, java_opts):
 
 
 def tlc(ctx, name, tla, cfg, workers=4, timeout=600, extra=None, env_extra=None,
-        expect_ok=True, count=True, coverage=False, out_name=None):
+        expect_ok=True, count=True, coverage=False, out_name=None, cacheable=True):
     """Runs TLC in /verif/spec.  Returns dict(out, ok, distinct, generated, depth)."""
     extra = list(extra or [])
     if coverage:
@@ -108,12 +160,32 @@ def tlc(ctx, name, tla, cfg, workers=4, timeout=600, extra=None, env_extra=None,
         env.update(env_extra)
     cmd = ["timeout", str(timeout)] + _tlc_cmd(workers, metadir, cfg, tla, extra, None)
     t = time.time()
-    with open(out_path, "w") as f:
-        p = subprocess.run(cmd, cwd=SPEC, env=env, stdout=f, stderr=subprocess.STDOUT)
+    ckey = "tlc-" + hashlib.sha256((spec_hash() + "|" + " ".join(cmd[2:]).replace(metadir, "M") + "|" +
+                                    json.dumps(env_extra or {}, sort_keys=True)).encode()).hexdigest()[:32]
+    cached = cacheable and "-simulate" not in extra and cache_get(ckey, out_path)
+
+    class _P:
+        returncode = 0
+    if cached:
+        p = _P()
+        with open(out_path, errors="replace") as f:
+            first = f.readline()
+        m = re.match(r"^#rc=(\d+)", first)
+        p.returncode = int(m.group(1)) if m else 0
+    else:
+        with open(out_path, "w") as f:
+            f.write("#rc=???\n")
+            f.flush()
+            p = subprocess.run(cmd, cwd=SPEC, env=env, stdout=f, stderr=subprocess.STDOUT)
+        # record the exit code in the first line
+        with open(out_path, "r+") as f:
+            f.write("#rc=%-3d" % p.returncode)
+        if cacheable and p.returncode != 124:
+            cache_put(ckey, out_path)
     dt = time.time() - t
     shutil.rmtree(metadir, ignore_errors=True)
     res = {"out": out_path, "rc": p.returncode, "wall_s": round(dt, 1), "name": name,
-           "distinct": 0, "generated": 0, "depth": 0}
+           "distinct": 0, "generated": 0, "depth": 0, "cached": bool(cached)}
     tail = ""
     with open(out_path, errors="replace") as f:
         for line in f:
@@ -132,8 +204,8 @@ def tlc(ctx, name, tla, cfg, workers=4, timeout=600, extra=None, env_extra=None,
                 (p.returncode == 0 and "-simulate" in " ".join(extra))
     if p.returncode == 124:
         res["timeout"] = True
-    log("tlc %s: rc=%d distinct=%d generated=%d %.1fs" % (name, p.returncode, res["distinct"],
-                                                            res["generated"], dt))
+    log("tlc %s: rc=%d distinct=%d generated=%d %.1fs%s" % (name, p.returncode, res["distinct"],
+                                                              res["generated"], dt, " (cached)" if cached else ""))
     if count:
         ctx.states += res["distinct"]
         ctx.transitions += res["generated"]
@@ -185,8 +257,24 @@ def extract_replays(tlc_out, dest, limit=None, keep=None):
 # ---------------------------------------------------------------------------
 # harness
 
-def vh(ctx, module, behaviours=None, props=None, opts=None, timeout=3000, out_name=None, env_extra=None):
+def vh(ctx, module, behaviours=None, props=None, opts=None, timeout=3000, out_name=None, env_extra=None,
+       cacheable=False):
+    """Runs the harness.  With cacheable=True (deterministic replays only: no
+    free-running threads, no wall-clock dependence) the result is reused for
+    the same harness binary, behaviour file, options, seed and tier."""
     out = ctx.path((out_name or module) + ".result.json")
+    ckey = None
+    if cacheable:
+        h = _sha_file(VH)
+        if behaviours:
+            _sha_file(behaviours, h)
+        h.update(json.dumps([module, sorted(props or []), sorted((opts or {}).items()), ctx.seed, ctx.tier,
+                             sorted((env_extra or {}).items())]).encode())
+        ckey = "vh-" + h.hexdigest()[:32]
+        if cache_get(ckey, out):
+            log("vh %s: cached result" % module)
+            with open(out) as f:
+                return json.load(f)
     cmd = [VH, module, "--out", out, "--seed", str(ctx.seed), "--tier", ctx.tier]
     if behaviours:
         cmd += ["--in", behaviours]
@@ -208,6 +296,8 @@ def vh(ctx, module, behaviours=None, props=None, opts=None, timeout=3000, out_na
     if p.returncode != 0 or not os.path.exists(out):
         sys.stderr.write(p.stderr[-4000:])
         raise ToolError("harness %s failed rc=%d" % (module, p.returncode))
+    if ckey:
+        cache_put(ckey, out)
     with open(out) as f:
         return json.load(f)
 
